@@ -812,3 +812,94 @@ impl<T> Queue<T> {
         unsafe { (*self.vec.get()).pop() }
     }
 }
+
+/// Read-only introspection used by external verification harnesses. Compiled only with
+/// `--cfg gc_arena_verif`; never changes collector state.
+#[cfg(gc_arena_verif)]
+pub mod verif {
+    use alloc::vec::Vec;
+
+    use super::{Context, Phase};
+    use crate::types::GcColor;
+
+    /// One entry of the all-objects list.
+    #[derive(Debug, Clone, Copy, PartialEq, Eq)]
+    pub struct ObjSnap {
+        /// Address of the value (what `Gc::as_ptr` returns, as an integer).
+        pub addr: usize,
+        /// 0 = White, 1 = WhiteWeak, 2 = Gray, 3 = Black.
+        pub color: u8,
+        pub live: bool,
+        pub needs_trace: bool,
+    }
+
+    /// A copy of the collector bookkeeping.
+    #[derive(Debug, Clone, PartialEq, Eq)]
+    pub struct HeapSnap {
+        /// 0 = Sleep, 1 = Mark, 2 = Sweep, 3 = Drop.
+        pub phase: u8,
+        pub root_needs_trace: bool,
+        /// The all-objects list in list order.
+        pub all: Vec<ObjSnap>,
+        /// True if the list walk was cut short at the cap (corrupted or cyclic list).
+        pub truncated: bool,
+        pub sweep: Option<usize>,
+        pub sweep_prev: Option<usize>,
+        pub gray: Vec<usize>,
+        pub gray_again: Vec<usize>,
+    }
+
+    impl Context {
+        pub(crate) fn verif_snapshot(&self, cap: usize) -> HeapSnap {
+            let color = |c: GcColor| match c {
+                GcColor::White => 0,
+                GcColor::WhiteWeak => 1,
+                GcColor::Gray => 2,
+                GcColor::Black => 3,
+            };
+            let mut all = Vec::new();
+            let mut truncated = false;
+            let mut cur = self.all.get();
+            while let Some(p) = cur {
+                if all.len() >= cap {
+                    truncated = true;
+                    break;
+                }
+                let h = p.header();
+                all.push(ObjSnap {
+                    addr: p.as_ptr() as usize,
+                    color: color(h.color()),
+                    live: h.is_live(),
+                    needs_trace: h.needs_trace(),
+                });
+                cur = h.next();
+            }
+            let queue = |q: &super::Queue<crate::gc_ptr::GcPtr>| -> Vec<usize> {
+                // SAFETY: same argument as for the other `Queue` methods, no reference escapes.
+                unsafe { (*q.vec.get().cast_const()).iter().map(|p| p.as_ptr() as usize).collect() }
+            };
+            HeapSnap {
+                phase: match self.phase {
+                    Phase::Sleep => 0,
+                    Phase::Mark => 1,
+                    Phase::Sweep => 2,
+                    Phase::Drop => 3,
+                },
+                root_needs_trace: self.root_needs_trace,
+                all,
+                truncated,
+                sweep: self.sweep.map(|p| p.as_ptr() as usize),
+                sweep_prev: self.sweep_prev.get().map(|p| p.as_ptr() as usize),
+                gray: queue(&self.gray),
+                gray_again: queue(&self.gray_again),
+            }
+        }
+    }
+
+    impl<'gc> super::Mutation<'gc> {
+        /// Snapshot of the collector bookkeeping, see [`HeapSnap`].
+        pub fn verif_heap_snapshot(&self, cap: usize) -> HeapSnap {
+            self.context.verif_snapshot(cap)
+        }
+    }
+}
